@@ -15,11 +15,13 @@ EXTENDS SetOps, TLC, Json
 
 CONSTANTS Caps, Cmps, Univ, Kind, MaxXs, MaxCt
 
-VARIABLES cap, cmp, obj, last
-vars == <<cap, cmp, obj, last>>
-View == <<cap, cmp, obj>>
+VARIABLES cap, cmp, obj, mv, last
+\* mv \subseteq {"a","b"}: objects in moved-from state (their contents are modelled as emptied; the real
+\* contents are "valid but unspecified" and judged with that relation by SetTrace)
+vars == <<cap, cmp, obj, mv, last>>
+View == <<cap, cmp, obj, mv>>
 
-Objs == IF Kind = "fmset" THEN {"a"} ELSE {"a", "b"}
+Objs == {"a", "b"}
 Other(o) == IF o = "a" THEN "b" ELSE "a"
 Min2(a, b) == IF a < b THEN a ELSE b
 
@@ -42,6 +44,7 @@ FullSurface(o) ==
     \cup {C(op, [X0 EXCEPT !.p = p]) : op \in (IF Flat THEN ErasePosOps ELSE {"erase_pos"}), p \in 0..(n - 1)}
     \cup {C("erase_range", [X0 EXCEPT !.p = p, !.q = q]) : p \in 0..n, q \in 0..n}
     \cup {C("clear", X0)}
+    \cup (IF Flat THEN {C("erase_if_odd", X0)} \cup {C("erase_if_eq", [X0 EXCEPT !.v = v]) : v \in Univ} ELSE {})
     \cup {C(op, [X0 EXCEPT !.src = s]) : op \in SwapOps, s \in Objs}
     \cup (IF Flat THEN {C("extract", X0)} \cup {C(op, [X0 EXCEPT !.xs = xs]) : op \in {"replace", "insert_su_range"}, xs \in AscSeqs}
           ELSE {})
@@ -58,29 +61,54 @@ LightSurface(o) ==
     (IF Len(obj[o]) = 0 THEN {C("ctor_range", [X0 EXCEPT !.xs = xs]) : xs \in AscSeqs} ELSE {})
     \cup {C(op, [X0 EXCEPT !.src = Other(o)]) : op \in SwapOps}
 
+\* whole-object copy and move between the two objects: from every pair of values
+\* (construction discards the old value: offered on an empty target, from every source value)
+CopyMove(o) ==
+    {C(op, [X0 EXCEPT !.src = Other(o)]) : op \in {"copy_assign", "move_assign"}}
+    \cup (IF Len(obj[o]) = 0 THEN {C(op, [X0 EXCEPT !.src = Other(o)]) : op \in {"ctor_copy", "ctor_move"}} ELSE {})
+
+\* what a moved-from object is asked to accept (the other object is then the freshly moved-to one)
+Revive(o) ==
+    {C("clear", X0), C("ctor_default", X0)}
+    \cup {C(op, [X0 EXCEPT !.src = Other(o)]) : op \in {"copy_assign", "move_assign", "ctor_copy"}}
+    \cup (IF Kind = "sset" THEN {C("insert_copy", [X0 EXCEPT !.v = v]) : v \in Univ} ELSE {})
+
+\* flat_multiset has constructors only: object a is constructed, b is a copy / move target and source
 MultiSurface(o) ==
-    IF Len(obj[o]) # 0 THEN {}
-    ELSE {C("ms_ctor_default", X0)}
-         \cup {C("ms_ctor_cont", [X0 EXCEPT !.xs = xs]) : xs \in SeqsUpTo(Min2(MaxCt, cap))}
-         \cup {C("ms_ctor_sorted", [X0 EXCEPT !.xs = xs]) : xs \in WeakSeqs}
+    (IF o = "a" /\ Len(obj.a) = 0 /\ Len(obj.b) = 0
+     THEN {C("ms_ctor_default", X0)}
+          \cup {C("ms_ctor_cont", [X0 EXCEPT !.xs = xs]) : xs \in SeqsUpTo(Min2(MaxCt, cap))}
+          \cup {C("ms_ctor_sorted", [X0 EXCEPT !.xs = xs]) : xs \in WeakSeqs}
+     ELSE {})
+    \cup {C(op, [X0 EXCEPT !.src = Other(o)]) : op \in CopyOps \cup MoveOps}
 
 Calls(o) ==
-    IF Kind = "fmset" THEN MultiSurface(o)
-    ELSE IF obj[Other(o)] = <<>> THEN FullSurface(o) ELSE LightSurface(o)
+    IF o \in mv THEN (IF Kind = "fmset" THEN {C(op, [X0 EXCEPT !.src = Other(o)]) : op \in {"copy_assign", "move_assign"}}
+                                             \cup {C("ms_ctor_default", X0)}
+                      ELSE Revive(o))
+    ELSE IF mv # {} THEN {}
+    ELSE IF Kind = "fmset" THEN MultiSurface(o)
+    ELSE (IF obj[Other(o)] = <<>> THEN FullSurface(o) ELSE LightSurface(o)) \cup CopyMove(o)
 
 Init ==
     /\ cap \in Caps
     /\ cmp \in Cmps
     /\ obj = [a |-> <<>>, b |-> <<>>]
+    /\ mv = {}
     /\ last = [op |-> "init", o |-> "a", x |-> X0, pre |-> obj, post |-> obj, ret |-> [i |-> 0, n |-> 0],
-               out |-> <<>>, cap |-> cap, cmp |-> cmp, kind |-> Kind]
+               out |-> <<>>, cap |-> cap, cmp |-> cmp, kind |-> Kind, premv |-> {}, postmv |-> {}]
 
 Step(o, c) ==
-    /\ Pre(c.op, o, c.x, obj, cap, cmp, Kind)
-    /\ LET ef == Eff(c.op, o, c.x, obj, cap, cmp) IN
-          /\ obj' = ef.st
-          /\ last' = [op |-> c.op, o |-> o, x |-> c.x, pre |-> obj, post |-> ef.st, ret |-> ef.ret,
-                      out |-> ef.out, cap |-> cap, cmp |-> cmp, kind |-> Kind]
+    /\ Pre(c.op, o, c.x, obj, cap, cmp, Kind, mv)
+    /\ LET ef == Eff(c.op, o, c.x, obj, cap, cmp)
+           m2 == MvAfter(c.op, o, c.x, mv)
+           \* moved-from source modelled as emptied; insert into a moved-from object leaves the placeholder
+           st2 == IF c.op \in MoveOps THEN [ef.st EXCEPT ![c.x.src] = <<>>]
+                  ELSE IF o \in mv /\ c.op = "insert_copy" THEN obj ELSE ef.st
+       IN /\ obj' = st2
+          /\ mv' = m2
+          /\ last' = [op |-> c.op, o |-> o, x |-> c.x, pre |-> obj, post |-> st2, ret |-> ef.ret,
+                      out |-> ef.out, cap |-> cap, cmp |-> cmp, kind |-> Kind, premv |-> mv, postmv |-> m2]
     /\ UNCHANGED <<cap, cmp>>
 
 Next == \E o \in Objs : \E c \in Calls(o) : Step(o, c)
@@ -91,7 +119,7 @@ Spec == Init /\ [][Next]_vars
 Emit == PrintT(<<"GEN", ToJson(last')>>)
 
 \* ---- what TLC proves about the model (MC role) ----------------------------------------------------
-TypeOK == /\ cap \in Caps /\ cmp \in Cmps
+TypeOK == /\ cap \in Caps /\ cmp \in Cmps /\ mv \subseteq Objs
           /\ \A o \in {"a", "b"} : obj[o] \in Seq(Univ)
 
 \* "sets stay sorted and unique" (weakly sorted for the multiset), never above capacity.  Every key set
@@ -115,11 +143,11 @@ CapConst == [][cap' = cap /\ cmp' = cmp]_vars
 
 \* inserting a new key into a full set: failure, nothing changes
 FullInsert ==
-    [][(last'.op \in InsOps /\ FullNew(obj[last'.o], cap, last'.x.v)) => (last'.ret.n = 0 /\ obj' = obj)]_vars
+    [][(last'.op \in InsOps /\ last'.o \notin mv /\ FullNew(obj[last'.o], cap, last'.x.v)) => (last'.ret.n = 0 /\ obj' = obj)]_vars
 
 \* (iterator, inserted): inserted <=> the key was absent; afterwards the key is present at the returned offset
 InsertLaw ==
-    [][(last'.op \in InsOps /\ ~FullNew(obj[last'.o], cap, last'.x.v)) =>
+    [][(last'.op \in InsOps /\ last'.o \notin mv /\ ~FullNew(obj[last'.o], cap, last'.x.v)) =>
           /\ (last'.ret.n = 1) <=> (last'.x.v \notin Elems(obj[last'.o]))
           /\ obj'[last'.o][last'.ret.i + 1] = last'.x.v
           /\ Elems(obj'[last'.o]) = Elems(obj[last'.o]) \cup {last'.x.v}]_vars
@@ -131,7 +159,26 @@ EraseLaw ==
 
 \* an operation on one object never changes the other, unless it is the swap partner
 Independence ==
-    [][\A o \in {"a", "b"} : (last'.o # o /\ ~(last'.op \in SwapOps /\ last'.x.src = o)) => obj'[o] = obj[o]]_vars
+    [][\A o \in {"a", "b"} : (last'.o # o /\ ~(last'.op \in SwapOps \cup MoveOps /\ last'.x.src = o)) => obj'[o] = obj[o]]_vars
+
+\* copies are equal to and independent of their source: the source is untouched by the copy, and (Independence)
+\* no later operation on one of them shows in the other; a move transfers the value
+CopyMoveLaw ==
+    [][/\ last'.op \in CopyOps => (obj'[last'.o] = obj[last'.x.src] /\ obj'[last'.x.src] = obj[last'.x.src])
+       /\ last'.op \in MoveOps => (obj'[last'.o] = obj[last'.x.src] /\ last'.x.src \in mv' /\ last'.o \notin mv')]_vars
+
+\* erase_if removes exactly the keys satisfying the predicate and returns how many
+EraseIfLaw ==
+    [][last'.op \in EraseIfOps =>
+          /\ Elems(obj'[last'.o]) = {v \in Elems(obj[last'.o]) : ~EraseIfPred(last'.op, last'.x, v)}
+          /\ last'.ret.n = Len(obj[last'.o]) - Len(obj'[last'.o])]_vars
+
+\* the relational operators form a strict total order on iteration sequences consistent with ==
+OrderLaws ==
+    LET a == obj.a b == obj.b IN
+    /\ (LexLess(a, b) \/ LexLess(b, a) \/ a = b)
+    /\ ~(LexLess(a, b) /\ LexLess(b, a))
+    /\ (a = b => ~LexLess(a, b))
 
 \* flat_multiset(container): weakly ascending, same elements
 MultisetLaw ==
